@@ -42,13 +42,6 @@ ShapesK == SeqMap(LAMBDA p : << "NewKeyCertificate", << 5, 0, 4 >> \o BE16(p[1])
 ShapesS == ShapesK \o << << "ReadRouterAddress", AddrSSU, << >> >>,
               << "ReadRouterInfo", EncRouterInfo(Id("key", 7, 4), 7, Zeros(8), << AddrSSU, Addr >>, 0, Opts, 3), << >> >> >>
 \* structures that really verify (real keys and signatures put into the reference slots by the driver): Verify() then runs its whole path
-SignedShape(fn, base, st, typ) ==
-  LET sl == SlotsOf(fn, base, typ) IN
-  [fn |-> fn, in |-> base, base |-> base, st |-> st, typ |-> typ, prefix |-> StoreTypePrefix(fn), signed |-> TRUE, stream |-> 7,
-   idkey |-> [off |-> sl.idoff, len |-> sl.idlen], sig |-> [off |-> sl.sigoff, len |-> sl.siglen]]
-  @@ (IF sl.off THEN [offline |-> [keyoff |-> sl.keyoff, keylen |-> sl.keylen, tst |-> (IF fn = "ReadEncryptedLeaseSet" THEN RefEncryptedLeaseSet(base).tst
-                                                                                        ELSE IF fn = "ReadLeaseSet2" THEN RefLeaseSet2(base).h.tst ELSE RefMetaLeaseSet(base).h.tst),
-                                   sigoff |-> sl.osigoff, siglen |-> sl.osiglen, from |-> sl.from, to |-> sl.to]] ELSE << >>)
 SignedShapes ==
   << SignedShape("ReadMetaLeaseSet", EncMeta(Id("key", 7, 4), T4, << 2, 88 >>, 1, EncOffline(T4, 7, 7, 4), Opts, 1, << EncMetaEntry(1, 3, T4, 1, << >>) >>, 7, 5), 7, 0),
      SignedShape("ReadMetaLeaseSet", EncMeta(Id("key", 11, 4), T4, << 2, 88 >>, 0, << >>, Opts, 1, << EncMetaEntry(1, 3, T4, 1, << >>) >>, 11, 5), 11, 0),
